@@ -68,13 +68,29 @@ def _compare_unnamed(case, ss, os_):
         return (o["code"], o["custom_code"], o["version"], norm(o["options"]), o["custom_options"], ins, outs)
 
     pool = [sig(o, st) for o in ss["ops"]]
+
+    def matches(p, g):
+        # p: source operator, g: operator of the output model.  A constant operand must come back with its bytes; an operand that is an activation in the source may have
+        # become a constant (a producer folded by the compiler, e.g. SHAPE), its bytes are not this rule's business
+        if p[:5] != g[:5] or len(p[5]) != len(g[5]) or p[6] != g[6]:
+            return False
+        for a, b in zip(p[5], g[5]):
+            if (a is None) != (b is None):
+                return False
+            if a is None:
+                continue
+            if a[0] != b[0] or (a[1] is not None and a[1] != b[1]):
+                return False
+        return True
+
     n = 0
     for k, o in enumerate(os_["ops"]):
         if o["custom_code"] == "ethos-u":
             continue
         g = sig(o, ot)
-        if g in pool:
-            pool.remove(g)
+        hit = next((p for p in pool if matches(p, g)), None)
+        if hit is not None:
+            pool.remove(hit)
             n += 1
             continue
         # say what is closest: same operator with another operand pattern?
@@ -85,7 +101,7 @@ def _compare_unnamed(case, ss, os_):
             if len(p0[5]) != len(g[5]):
                 why = "operand count %d -> %d" % (len(p0[5]), len(g[5]))
             else:
-                bad = [i for i, (a, b) in enumerate(zip(p0[5], g[5])) if a != b]
+                bad = [i for i, (a, b) in enumerate(zip(p0[5], g[5])) if (a is None) != (b is None) or (a is not None and (a[0] != b[0] or (a[1] is not None and a[1] != b[1])))]
                 why = "operand(s) %s differ (omitted, other type/shape/quantisation, or other constant data)" % bad if bad else "result tensors differ"
         raise Violation("C11/op-changed/unnamed", "operator %d (%s) of the output model matches no operator of the source (tensor names are not unique there, matched by content): %s" % (
             k, o["custom_code"] or o["code"], why), case)
